@@ -49,11 +49,19 @@ type Outcome struct {
 	Unknowns  int               `json:"unknowns,omitempty"`
 	SymAssert int               `json:"sym_asserts"` // assertion queries that went to the solver
 	SymVars   int               `json:"sym_vars"`
+	Cross     []CrossQuery      `json:"-"`
 	Stubs     map[string]int    `json:"-"`
 	Funcs     map[string]int    `json:"-"`
 	Choices   string            `json:"choices,omitempty"`
 	Bounds    map[string]string `json:"-"`
 	Ms        int64             `json:"ms"`
+}
+
+// CrossQuery is the full SMT-LIB transcript of one assertion query and the verdict of the primary solver.
+type CrossQuery struct {
+	Label   string
+	Script  string
+	Verdict Result
 }
 
 // pathState holds the decision cursor of the running path.
